@@ -1,12 +1,29 @@
 """
 C02 — content verification is exact.
 
-Lean side: `Verify.verifySeq` (code-shaped sequential reference of Torrent.verify with
-VerifyCallback and VerifyContentError) on top of `Missing.iterItems`, and the specification
-(`SpecOk`, `badFiles`, `mismatches`, `overlapping`).  Real side: `Torrent.verify()` on a tmpfs
-tree damaged in the same way (missing / one byte short / one byte long files, flipped bytes).
+Lean side: `VerifyFs.verifyFs` (code-shaped sequential reference of Torrent.verify with
+VerifyCallback and VerifyContentError over every state a listed path can be in; it is
+`Verify.verifySeq` on the two classic states, theorem `C02_fs_conservative`) on top of
+`Missing.missingCall`, and the specification (`SpecOkFs`, `owed`, `badFiles`, `mismatches`,
+`overlapping`).  Real side: `Torrent.verify()` on a tmpfs tree damaged in the same way.
+
+State of a listed path (`case['disk'][i]`):
+  'ok' | 'missing' | n                         regular file (n = actual size)
+  {'k':'file','size':n,'how':'symlink'}        symbolic link to a regular file of n bytes
+  {'k':'gone','errno':e,'how':…}               os.path.exists() false, open() raises OSError(e):
+        'eloop' link to itself, 'dangling' link, 'enotdir' a parent directory replaced by a regular
+        file, 'toolong' a name of 300 characters, 'inject' (patched exists/open: EACCES on a parent …)
+  {'k':'noopen','stat':n,'errno':e,'how':…}    exists with stat size n, open() raises OSError(e):
+        'dir' a directory in its place, 'socket' a unix socket, 'inject' (patched open: EACCES —
+        the tests run as root —, EMFILE, EIO …)
+  {'k':'readerr','size':n,'off':o,'errno':e}   regular file of n bytes; a read() that covers byte
+        offset o raises OSError(e) (patched open in torf._stream returns a proxy handle; for a
+        zero-length entry also for real: 'how':'procmem', a symbolic link to /proc/self/mem)
 """
+import errno
 import os
+import shutil
+import socket
 
 from harness import common
 from harness.gen import layouts
@@ -14,18 +31,74 @@ from harness.impl import content
 
 FLIP = 1 << 39
 
-RULE = ('case = (piece length, file sizes, per-file disk state ok|missing|actual size, flipped byte positions, '
-        'single/multi-file, path kind, threads, callback yes/no); damaged trees: every subset of <=3 files '
-        'missing/-1/+1 in small scopes, byte flips at first/last byte of pieces and files and random '
-        'positions, zero-length entries, renamed top-level directory; non-trivial = damaged and the damaged '
-        'piece/file shares a piece with another file, or intact with >=2 files; distinct = distinct case tuples')
+RULE = ('case = (piece length, file sizes, per-file path state, flipped byte positions, single/multi-file, '
+        'path kind, threads, callback yes/no); path state = regular file ok / missing / other size / symlink '
+        'to a file / not stat-able with open() failing ENOENT, ENOTDIR, ELOOP, ENAMETOOLONG, EACCES / '
+        'stat-able with open() failing EISDIR (directory), ENXIO (socket), EACCES, EMFILE, EIO / readable '
+        'with an OSError at the read covering a byte offset; damaged trees: every subset of <=3 files '
+        'missing/-1/+1 in small scopes, every abstract state at every file position of every layout with '
+        '<=3 files of 0..3 bytes (L=2), byte flips at first/last byte of pieces and files and random '
+        'positions, zero-length entries, renamed top-level directory; non-trivial = >=2 files; '
+        'distinct = distinct case tuples')
+
+ERRNAMES = {2: 'ENOENT', 5: 'EIO', 6: 'ENXIO', 13: 'EACCES', 20: 'ENOTDIR', 21: 'EISDIR', 24: 'EMFILE',
+            36: 'ENAMETOOLONG', 40: 'ELOOP', 116: 'ESTALE'}
+
+
+# ---------------------------------------------------------------- path states
+
+def _kind(st):
+    return st['k'] if isinstance(st, dict) else ('ok' if st == 'ok' else 'gone' if st == 'missing' else 'file')
+
+
+def _main_bad(size, st):
+    """is the file bad for the main loop of iter_pieces (`fileError` of the Lean `mainDisk`)?"""
+    if st == 'ok':
+        return False
+    if st == 'missing':
+        return True
+    if not isinstance(st, dict):
+        return int(st) != size
+    k = st['k']
+    if k == 'gone' or k == 'noopen':
+        return True
+    return st.get('size', size) != size          # file / readerr
+
+
+def _legacy(c):
+    return all(not isinstance(st, dict) for st in c['disk'])
+
+
+def _describe(c):
+    """one-line description of what is wrong with the content of a case (for messages)"""
+    out = []
+    for i, st in enumerate(c['disk']):
+        if st == 'ok':
+            continue
+        if st == 'missing':
+            out.append(f'file {i} missing')
+        elif not isinstance(st, dict):
+            out.append(f'file {i} has {st} instead of {c["sizes"][i]} bytes')
+        elif st['k'] == 'file':
+            n = st.get('size')
+            out.append(f'file {i} is a symlink to a file' + ('' if n is None or n == c['sizes'][i] else f' of {n} bytes'))
+        elif st['k'] == 'gone':
+            out.append(f'file {i} not stat-able, open() fails {ERRNAMES.get(st["errno"], st["errno"])} ({st.get("how")})')
+        elif st['k'] == 'noopen':
+            out.append(f'file {i} has stat size {st["stat"]} (recorded {c["sizes"][i]}), open() fails '
+                       f'{ERRNAMES.get(st["errno"], st["errno"])} ({st.get("how")})')
+        else:
+            out.append(f'file {i}: read() covering offset {st["off"]} fails {ERRNAMES.get(st["errno"], st["errno"])}')
+    for f, o in c['flips']:
+        out.append(f'byte {o} of file {f} flipped')
+    return '; '.join(out) if out else 'nothing (content as recorded)'
 
 
 def _bad_empty_at_boundary(case):
     L, sizes, disk = case['L'], case['sizes'], case['disk']
     pos = 0
     for s, st in zip(sizes, disk):
-        if s == 0 and st != 'ok' and pos % L == 0:
+        if s == 0 and _main_bad(s, st) and pos % L == 0:
             return True
         pos += s
     return False
@@ -42,49 +115,210 @@ def _d10a(case, observed, finding):
 MATCHERS = {'bad_empty_entry_at_piece_boundary': _d10a}
 
 
+# ---------------------------------------------------------------- the real side
+
+class _FaultyFile:
+    """file object whose read() raises OSError(err) when it covers byte offset `off`"""
+
+    def __init__(self, fh, off, err):
+        self._fh, self._off, self._err = fh, off, err
+
+    def read(self, n=-1):
+        pos = self._fh.tell()
+        if pos <= self._off and (n is None or n < 0 or self._off < pos + n):
+            raise OSError(self._err, os.strerror(self._err))
+        return self._fh.read(n)
+
+    def __getattr__(self, name):
+        return getattr(self._fh, name)
+
+
+class _PathProxy:
+    """os.path for which the planned paths cannot be stat'ed (whatever function asks)"""
+
+    def __init__(self, plan):
+        self._plan = plan
+
+    def _nostat(self, p):
+        st = self._plan.get(os.path.normpath(str(p)))
+        return st['open'] if st is not None and st.get('nostat') else None
+
+    def __getattr__(self, name):
+        real = getattr(os.path, name)
+        if name in ('exists', 'lexists', 'isfile', 'isdir', 'islink'):
+            return lambda p: False if self._nostat(p) is not None else real(p)
+        if name in ('getsize', 'getmtime', 'getatime', 'getctime'):
+            def f(p):
+                e = self._nostat(p)
+                if e is not None:
+                    raise OSError(e, os.strerror(e), str(p))
+                return real(p)
+            return f
+        return real
+
+
+class _OsProxy:
+    def __init__(self, plan):
+        self.path = _PathProxy(plan)
+
+    def __getattr__(self, name):
+        real = getattr(os, name)
+        if name in ('stat', 'lstat'):
+            def f(p, *a, **k):
+                e = self.path._nostat(p)
+                if e is not None:
+                    raise OSError(e, os.strerror(e), str(p))
+                return real(p, *a, **k)
+            return f
+        return real
+
+
+class _Inject:
+    """shadow `open` and `os` in torf._stream for the paths of `plan` (nothing else is touched)"""
+
+    def __init__(self, plan):
+        self.plan = plan
+
+    def __enter__(self):
+        if not self.plan:
+            return self
+        import builtins
+        from torf import _stream as S
+        plan = self.plan
+
+        def _open(p, mode='r', *a, **k):
+            st = plan.get(os.path.normpath(str(p)))
+            if st is not None and st.get('open') is not None:
+                raise OSError(st['open'], os.strerror(st['open']), str(p))
+            fh = builtins.open(p, mode, *a, **k)
+            if st is not None and st.get('read') is not None:
+                return _FaultyFile(fh, *st['read'])
+            return fh
+        self._S = S
+        self._saved_os = S.os
+        S.open = _open
+        S.os = _OsProxy(plan)
+        return self
+
+    def __exit__(self, *a):
+        if self.plan:
+            self._S.__dict__.pop('open', None)
+            self._S.os = self._saved_os
+        return False
+
+
 def _good_bytes(c, i, size):
     return content.file_bytes(c['cseed'], i, size)
 
 
+def _rm(p):
+    if os.path.islink(p) or os.path.isfile(p) or (os.path.lexists(p) and not os.path.isdir(p)):
+        os.unlink(p)
+    elif os.path.isdir(p):
+        shutil.rmtree(p)
+
+
 def _make(wd, c):
+    """build the tree in its damaged state; returns (files, orig contents, contents now, top, inject plan)"""
     files = [{'path': p, 'size': s} for p, s in zip(c['paths'], c['sizes'])]
     dirname = c.get('dirname', 'T')
     single = c['single']
     top = os.path.join(wd, dirname)
-    content.make_tree(wd, dirname, files, seed=c['cseed'], single=single)
+    for name in ('T', 'renamed', 'aux'):
+        _rm(os.path.join(wd, name))
+    aux = os.path.join(wd, 'aux')
+    os.makedirs(aux)
     orig = [_good_bytes(c, i, f['size']) for i, f in enumerate(files)]
-    now = []
     flips = {}
     for f, o in c['flips']:
         flips.setdefault(f, []).append(o)
+    if not single:
+        os.makedirs(top)
+    now = []
+    plan = {}
+    notdirs = set()
+    socks = []
     for i, (f, st) in enumerate(zip(files, c['disk'])):
         p = top if single else os.path.join(top, *f['path'])
-        data = bytearray(orig[i])
-        if st == 'missing':
-            os.unlink(p)
-            now.append(None)
-            continue
-        if st != 'ok':
-            n = int(st)
-            data = bytearray((orig[i] + content.file_bytes(c['cseed'] + 1, i, max(0, n - len(orig[i]))))[:n])
+        k = _kind(st)
+        how = st.get('how') if isinstance(st, dict) else None
+        # bytes of the regular file that is (or is linked) there
+        n = f['size']
+        if k == 'file':
+            n = int(st) if not isinstance(st, dict) else (st.get('size') if st.get('size') is not None else n)
+        elif k == 'readerr':
+            n = st.get('size') if st.get('size') is not None else n
+        elif k == 'noopen' and how == 'inject':
+            n = st['stat']
+        data = bytearray((orig[i] + content.file_bytes(c['cseed'] + 1, i, max(0, n - len(orig[i]))))[:n])
         for o in flips.get(i, []):
             if o < len(data):
                 data[o] ^= 0xFF
-        if st != 'ok' or i in flips:
-            with open(p, 'wb') as fh:
-                fh.write(bytes(data))
-        now.append(bytes(data))
-    return files, orig, now, top
+        data = bytes(data)
+        if not single:
+            os.makedirs(os.path.dirname(p), exist_ok=True)
+        if how == 'toolong':
+            now.append(None)
+            continue                                  # cannot exist
+        if st == 'missing':
+            now.append(None)
+            continue
+        if how == 'procmem':
+            os.symlink('/proc/self/mem', p)
+            now.append(b'')
+            continue
+        if k in ('ok', 'file', 'readerr') or how == 'inject':
+            target = p
+            if how == 'symlink':
+                target = os.path.join(aux, f'target{i}')
+                os.symlink(target, p)
+            with open(target, 'wb') as fh:
+                fh.write(data)
+            if k == 'readerr':
+                plan[os.path.normpath(p)] = {'read': (st['off'], st['errno'])}
+            elif k == 'gone':
+                plan[os.path.normpath(p)] = {'nostat': True, 'open': st['errno']}
+            elif k == 'noopen':
+                plan[os.path.normpath(p)] = {'open': st['errno']}
+            now.append(data if k in ('ok', 'file', 'readerr') else None)
+            continue
+        now.append(None)
+        if how == 'eloop':
+            os.symlink(os.path.basename(p), p)
+        elif how == 'dangling':
+            os.symlink(f'nowhere{i}', p)
+        elif how == 'enotdir':
+            notdirs.add(os.path.join(top, *f['path'][:st['depth']]))
+        elif how == 'dir':
+            os.mkdir(p)
+            if os.path.getsize(p) != st['stat']:
+                raise RuntimeError(f'a directory on the scratch file system has size {os.path.getsize(p)}, '
+                                   f'the case says {st["stat"]}')
+        elif how == 'socket':
+            s = socket.socket(socket.AF_UNIX)
+            tmp = os.path.join(wd, f's{i}')         # AF_UNIX paths are short: bind here, move there
+            _rm(tmp)
+            s.bind(tmp)
+            os.rename(tmp, p)
+            socks.append(s)
+        else:
+            raise RuntimeError(f'unknown path state {st}')
+    for d in sorted(notdirs, key=len, reverse=True):
+        if os.path.isdir(d):
+            shutil.rmtree(d)
+            with open(d, 'wb') as fh:
+                fh.write(b'not a directory')
+    return files, orig, now, top, plan, socks
 
 
 def _exc_obs(torf, e, index_of):
     if isinstance(e, torf.VerifyContentError):
         return {'kind': 'content', 'piece': e.piece_index,
-                'files': sorted(index_of.get(str(f), -1) for f in e.files)}
+                'files': sorted(index_of.get(os.path.normpath(str(f)), -1) for f in e.files)}
     if isinstance(e, torf.ReadError):
-        return {'kind': 'read', 'file': index_of.get(str(e.path), -1)}
+        return {'kind': 'read', 'file': index_of.get(os.path.normpath(str(e.path)), -1), 'errno': e.errno}
     if isinstance(e, torf.VerifyFileSizeError):
-        return {'kind': 'size', 'file': index_of.get(str(e.filepath), -1)}
+        return {'kind': 'size', 'file': index_of.get(os.path.normpath(str(e.filepath)), -1)}
     if isinstance(e, torf.VerifyIsDirectoryError):
         return {'kind': 'isDir'}
     if isinstance(e, torf.VerifyNotDirectoryError):
@@ -101,8 +335,9 @@ def _run_chunk(cases):
     for c in cases:
         obs = {}
         orig = now = None
+        socks = []
         try:
-            files, orig, now, top = _make(wd, c)
+            files, orig, now, top, plan, socks = _make(wd, c)
             L = c['L']
             stream = b''.join(orig)
             pieces = b''.join(common.sha1(stream[i:i + L]) for i in range(0, len(stream), L))
@@ -120,9 +355,9 @@ def _run_chunk(cases):
             elif c['pathkind'] == 'nothing-for-multi':
                 path = os.path.join(wd, 'nonexistent')
             if c['single']:
-                index_of = {path: 0}
+                index_of = {os.path.normpath(path): 0}
             else:
-                index_of = {os.path.join(path, *f['path']): i for i, f in enumerate(files)}
+                index_of = {os.path.normpath(os.path.join(path, *f['path'])): i for i, f in enumerate(files)}
             for mode in ('nocb', 'cb'):
                 calls = []
 
@@ -130,7 +365,8 @@ def _run_chunk(cases):
                     calls.append({'same_torrent': tor is t, 'done': done, 'total': total, 'piece': pi,
                                   'hash': ph, 'exc': None if exc is None else _exc_obs(torf, exc, index_of)})
                 try:
-                    r = t.verify(path, threads=c['threads'], callback=cb if mode == 'cb' else None, interval=0)
+                    with _Inject(plan):
+                        r = t.verify(path, threads=c['threads'], callback=cb if mode == 'cb' else None, interval=0)
                     obs[mode] = {'ok': r}
                 except BaseException as e:  # noqa
                     obs[mode] = {'error': _exc_obs(torf, e, index_of)}
@@ -138,15 +374,105 @@ def _run_chunk(cases):
                     obs['calls'] = calls
         except BaseException as e:  # noqa
             obs['harness_exc'] = f'{type(e).__name__}: {e}'
+        finally:
+            for s in socks:
+                s.close()
         out.append((c, obs, orig, now))
     return out
 
+
+# ---------------------------------------------------------------- generation
 
 def _states(size):
     return ['missing', size + 1] + ([size - 1] if size > 0 else [])
 
 
-def _gen_damage(rng, L, sizes, kind):
+def _dirsize():
+    d = os.path.join(common.scratch_root(), 'dirsize-probe')
+    os.makedirs(d, exist_ok=True)
+    return os.path.getsize(d)
+
+
+_PROCMEM = None
+
+
+def _procmem_ok():
+    """does reading /proc/self/mem at offset 0 fail with EIO here? (a real path whose read() fails)"""
+    global _PROCMEM
+    if _PROCMEM is None:
+        try:
+            with open('/proc/self/mem', 'rb') as fh:
+                fh.read(1)
+            _PROCMEM = False
+        except OSError as e:
+            _PROCMEM = e.errno == errno.EIO and os.path.getsize('/proc/self/mem') == 0
+        except Exception:
+            _PROCMEM = False
+    return _PROCMEM
+
+
+def _offsets(rng, L, pos, n):
+    """interesting offsets of an unreadable byte in a file of n bytes at stream position pos"""
+    cands = {0, n, max(0, n - 1), n // 2}
+    first = (-pos) % L                      # first piece boundary inside the file
+    for b in (first, first + L):
+        for o in (b - 1, b, b + 1):
+            if 0 <= o <= n:
+                cands.add(o)
+    cands.add(rng.randint(0, n))
+    return sorted(cands)
+
+
+def _fs_state(rng, L, sizes, paths, i, single, dirsize, inject_only=False):
+    """a random non-classic state for file i (and the other files it drags along: ENOTDIR)"""
+    size = sizes[i]
+    pos = sum(sizes[:i])
+    opts = ['gone-inject', 'noopen-inject', 'noopen-inject', 'noopen-wrong', 'readerr', 'readerr']
+    if not inject_only:
+        opts += ['eloop', 'dangling', 'symlink', 'symlink-wrong', 'socket']
+        if not single:
+            opts += ['dir', 'dir']
+            if len(paths[i]) > 1:
+                opts += ['enotdir', 'enotdir']
+        if size == 0 and _procmem_ok():
+            opts += ['procmem'] * 6
+    o = rng.choice(opts)
+    if o == 'procmem':      # symlink to /proc/self/mem: stat size 0, open() works, read() raises EIO
+        return {i: {'k': 'readerr', 'off': 0, 'errno': errno.EIO, 'how': 'procmem'}}
+    if o == 'gone-inject':
+        return {i: {'k': 'gone', 'errno': rng.choice([errno.EACCES, errno.EIO, errno.ENOTDIR, errno.ESTALE]), 'how': 'inject'}}
+    if o == 'noopen-inject':
+        return {i: {'k': 'noopen', 'stat': size, 'how': 'inject',
+                    'errno': rng.choice([errno.EACCES, errno.EACCES, errno.EMFILE, errno.EIO, errno.ENOENT, errno.EISDIR])}}
+    if o == 'noopen-wrong':
+        return {i: {'k': 'noopen', 'stat': rng.choice([size + 1, max(0, size - 1), 0]) if size else 1, 'how': 'inject',
+                    'errno': rng.choice([errno.EACCES, errno.EIO])}}
+    if o == 'readerr':
+        st = {'k': 'readerr', 'off': rng.choice(_offsets(rng, L, pos, size)),
+              'errno': rng.choice([errno.EIO, errno.EIO, errno.ESTALE, errno.EACCES, errno.ENOENT])}
+        if rng.random() < 0.1:
+            st['size'] = size + 1
+            st['off'] = rng.randint(0, size + 1)
+        return {i: st}
+    if o == 'eloop':
+        return {i: {'k': 'gone', 'errno': errno.ELOOP, 'how': 'eloop'}}
+    if o == 'dangling':
+        return {i: {'k': 'gone', 'errno': errno.ENOENT, 'how': 'dangling'}}
+    if o == 'symlink':
+        return {i: {'k': 'file', 'size': size, 'how': 'symlink'}}
+    if o == 'symlink-wrong':
+        return {i: {'k': 'file', 'size': rng.choice([size + 1, max(0, size - 1)]) if size else 1, 'how': 'symlink'}}
+    if o == 'socket':
+        return {i: {'k': 'noopen', 'stat': 0, 'errno': errno.ENXIO, 'how': 'socket'}}
+    if o == 'dir':
+        return {i: {'k': 'noopen', 'stat': dirsize, 'errno': errno.EISDIR, 'how': 'dir'}}
+    depth = rng.randint(1, len(paths[i]) - 1)
+    prefix = paths[i][:depth]
+    return {j: {'k': 'gone', 'errno': errno.ENOTDIR, 'how': 'enotdir', 'depth': depth}
+            for j, p in enumerate(paths) if len(p) > depth and p[:depth] == prefix}
+
+
+def _gen_damage(rng, L, sizes, kind, paths=None, single=False, dirsize=40):
     n = len(sizes)
     disk = ['ok'] * n
     flips = []
@@ -177,61 +503,133 @@ def _gen_damage(rng, L, sizes, kind):
     elif kind == 'files':
         for i in rng.sample(range(n), min(n, rng.choice([1, 1, 2, 3]))):
             disk[i] = rng.choice(_states(sizes[i]))
-    else:  # both
+    elif kind == 'both':
         for i in rng.sample(range(n), min(n, rng.choice([1, 2]))):
             disk[i] = rng.choice(_states(sizes[i]))
         i = rng.randrange(n)
         if sizes[i]:
             flips.append([i, rng.randrange(sizes[i])])
+    else:  # fs: one or two paths in a non-classic state, sometimes next to classic damage / a flip
+        where = rng.choice(['first', 'last', 'any', 'any', 'any'])
+        picks = [0] if where == 'first' else [n - 1] if where == 'last' else [rng.randrange(n)]
+        if n > 1 and rng.random() < 0.35:
+            picks.append(rng.randrange(n))
+        for i in picks:
+            new = _fs_state(rng, L, sizes, paths, i, single, dirsize)
+            if all(disk[j] == 'ok' for j in new):        # (a replaced directory drags all files below it along)
+                for j, st in new.items():
+                    disk[j] = st
+        if rng.random() < 0.3:
+            i = rng.randrange(n)
+            if disk[i] == 'ok':
+                disk[i] = rng.choice(_states(sizes[i]))
+        if rng.random() < 0.25:
+            i = rng.randrange(n)
+            if sizes[i]:
+                flips.append([i, rng.randrange(sizes[i])])
     return disk, flips
+
+
+ABSTRACT = ['gone', 'noopen', 'noopen-wrong', 'readerr0', 'readerr-mid', 'readerr-end']
+
+
+def _abstract_state(a, size):
+    if a == 'gone':
+        return {'k': 'gone', 'errno': errno.EACCES, 'how': 'inject'}
+    if a == 'noopen':
+        return {'k': 'noopen', 'stat': size, 'errno': errno.EACCES, 'how': 'inject'}
+    if a == 'noopen-wrong':
+        return {'k': 'noopen', 'stat': size + 1, 'errno': errno.EIO, 'how': 'inject'}
+    off = 0 if a == 'readerr0' else size if a == 'readerr-end' else size // 2
+    return {'k': 'readerr', 'off': off, 'errno': errno.EIO}
 
 
 def gen_cases(ctx, scale=1.0):
     rng = ctx.rng
     cases = []
+    dirsize = _dirsize()
 
-    def add(L, sizes, kind, single=False, pathkind='normal', threads=1, nested=True):
-        disk, flips = _gen_damage(rng, L, sizes, kind)
+    def add(L, sizes, kind, single=False, pathkind='normal', threads=1, nested=True, paths=None, disk=None):
+        paths = paths or layouts.paths_for(len(sizes), rng, nested)
+        if disk is None:
+            disk, flips = _gen_damage(rng, L, sizes, kind, paths, single, dirsize)
+        else:
+            flips = []
         cases.append({'L': L, 'sizes': sizes, 'disk': disk, 'flips': flips, 'single': single,
                       'pathkind': pathkind, 'threads': threads, 'kind': kind,
-                      'paths': layouts.paths_for(len(sizes), rng, nested), 'cseed': rng.randrange(1 << 30),
+                      'paths': paths, 'cseed': rng.randrange(1 << 30),
                       'dirname': rng.choice(['T', 'T', 'renamed'])})
 
     # small scopes, every layout with one damage pattern each of several kinds
     scope = list(layouts.exhaustive([2, 3], 3)) if not ctx.thorough else \
         list(layouts.exhaustive([2, 3], 4)) + list(layouts.exhaustive([4], 3))
     scope = [(L, s) for (L, s) in scope if sum(s) > 0]
-    step = 1
     for i, (L, sizes) in enumerate(scope):
-        for kind in (('flip', 'files') if i % 3 else ('intact', 'flip', 'files', 'both')):
-            add(L, list(sizes), kind, threads=1, nested=False)
-    ctx.notes['exhaustive_scope'] = 'all layouts L in {2,3} (<=3 files quick, <=4 thorough; L=4 <=3 thorough), sizes 0..2L+1, one random damage per kind'
-    for _ in range(int(ctx.n(900, 25000) * scale)):
+        for kind in (('flip', 'files', 'fs') if i % 3 else ('intact', 'flip', 'files', 'both', 'fs')):
+            add(L, list(sizes), kind, threads=1, nested=(kind == 'fs'))
+    # every abstract path state at every position of every small layout (fault injection only)
+    small = [(L, s) for (L, s) in layouts.exhaustive([2], 3 if not ctx.thorough else 4, lambda L: range(0, 4))
+             if sum(s) > 0]
+    if ctx.thorough:
+        small += [(L, s) for (L, s) in layouts.exhaustive([3], 3, lambda L: range(0, 5)) if sum(s) > 0]
+    for (L, sizes) in small:
+        for i in range(len(sizes)):
+            for a in ABSTRACT:
+                disk = ['ok'] * len(sizes)
+                disk[i] = _abstract_state(a, sizes[i])
+                add(L, list(sizes), 'fs', nested=False, disk=disk)
+        if len(sizes) >= 2:       # two damaged paths
+            for _ in range(2):
+                disk = ['ok'] * len(sizes)
+                for i in rng.sample(range(len(sizes)), 2):
+                    disk[i] = rng.choice([_abstract_state(rng.choice(ABSTRACT), sizes[i]), 'missing', sizes[i] + 1])
+                add(L, list(sizes), 'fs', nested=False, disk=disk)
+    ctx.notes['exhaustive_scope'] = ('all layouts L in {2,3} (<=3 files quick, <=4 thorough; L=4 <=3 thorough), sizes 0..2L+1, '
+                                     'one random damage per kind; L=2, <=3 files (thorough <=4; L=3 <=3) of 0..3 bytes: every '
+                                     'file position x {not stat-able, not openable with right / wrong stat size, unreadable '
+                                     'byte at offset 0 / middle / end-of-file}')
+    for _ in range(int(ctx.n(1100, 30000) * scale)):
         L = rng.choice([2, 3, 4, 5, 8, 16, 64])
         shape, sizes = layouts.random_sizes(rng, L, nmax=24)
-        add(L, sizes, rng.choice(['intact', 'flip', 'flip', 'files', 'files', 'both']),
+        if rng.random() < 0.08:
+            sizes[rng.randrange(len(sizes))] = dirsize      # a directory in its place has exactly this stat size
+        add(L, sizes, rng.choice(['intact', 'flip', 'flip', 'files', 'files', 'both', 'fs', 'fs', 'fs']),
             threads=rng.choice([1, 1, 2, 3, 4]))
+    # a listed name that is too long for the file system: the file cannot exist
+    for _ in range(int(ctx.n(20, 300) * scale)):
+        L = rng.choice([2, 3, 8, 16])
+        shape, sizes = layouts.random_sizes(rng, L, nmax=8)
+        paths = layouts.paths_for(len(sizes), rng, True)
+        i = rng.randrange(len(sizes))
+        paths[i] = paths[i][:-1] + [paths[i][-1] + 'x' * 300]
+        disk = ['ok'] * len(sizes)
+        disk[i] = {'k': 'gone', 'errno': errno.ENAMETOOLONG, 'how': 'toolong'}
+        add(L, sizes, 'fs', threads=rng.choice([1, 2]), paths=paths, disk=disk)
     # real piece lengths through the unpatched public API (validate() runs)
-    for _ in range(int(ctx.n(80, 2000) * scale)):
+    for _ in range(int(ctx.n(100, 2400) * scale)):
         L = 16384 * rng.choice([1, 1, 2])
         n = rng.randint(1, 6)
         sizes = [max(0, rng.choice([0, 1, L - 1, L, L + 1, rng.randint(0, 2 * L), rng.randint(0, L // 16)]))
                  for _ in range(n)]
         if sum(sizes) == 0:
             sizes[0] = L + 1
-        add(L, sizes, rng.choice(['intact', 'flip', 'files', 'both']), threads=rng.choice([1, 2, 4]))
+        add(L, sizes, rng.choice(['intact', 'flip', 'files', 'both', 'fs', 'fs']), threads=rng.choice([1, 2, 4]))
     # single-file torrents and path-kind mismatches
-    for _ in range(int(ctx.n(120, 2500) * scale)):
+    for _ in range(int(ctx.n(160, 3200) * scale)):
         L = rng.choice([2, 3, 8, 16384])
-        if rng.random() < 0.6:
+        if rng.random() < 0.65:
             sizes = [max(1, layouts.boundary_sizes(rng, L))]
-            add(L, sizes, rng.choice(['intact', 'flip', 'files']), single=True,
-                pathkind=rng.choice(['normal', 'normal', 'dir-for-single']), nested=False)
+            kind = rng.choice(['intact', 'flip', 'files', 'fs', 'fs'])
+            add(L, sizes, kind, single=True,
+                pathkind='normal' if kind == 'fs' else rng.choice(['normal', 'normal', 'dir-for-single']), nested=False,
+                threads=rng.choice([1, 1, 2]))
         else:
             shape, sizes = layouts.random_sizes(rng, L, nmax=13)
             add(L, sizes, 'intact', pathkind=rng.choice(['file-for-multi', 'nothing-for-multi']))
     return cases
 
+
+# ---------------------------------------------------------------- judging
 
 def _bytes_of(runs, now):
     if runs is None:
@@ -244,13 +642,21 @@ def _bytes_of(runs, now):
     return out
 
 
-def _norm_model_exc(e):
+def _norm_model_exc(e, errno_of=None, piece=None):
     if e is None:
         return None
     e = dict(e)
     if 'files' in e:
         e['files'] = sorted(e['files'])
+    if e.get('kind') == 'read' and errno_of is not None:
+        e['errno'] = errno_of(piece, e['file'])
     return e
+
+
+def _key(c):
+    import json
+    return (c['L'], tuple(c['sizes']), tuple(json.dumps(d, sort_keys=True) for d in c['disk']),
+            tuple(map(tuple, c['flips'])), c['single'], c['pathkind'])
 
 
 def evaluate(ctx, drv, cases):
@@ -258,9 +664,20 @@ def evaluate(ctx, drv, cases):
     for c in cases:
         pid = c['pathkind'] not in ('file-for-multi', 'nothing-for-multi') if not c['single'] else \
             c['pathkind'] == 'dir-for-single'
-        reqs.append({'op': 'c02.verify', 'L': c['L'], 'sizes': c['sizes'], 'disk': c['disk'], 'flips': c['flips'],
+        reqs.append({'op': 'c02.verifyfs', 'L': c['L'], 'sizes': c['sizes'], 'disk': c['disk'], 'flips': c['flips'],
                      'single': c['single'], 'pathIsDir': pid})
-    replies = drv.run(reqs)
+    # on the two classic states the extended model must be the classic one (theorem C02_fs_conservative)
+    legacy_idx = [i for i, c in enumerate(cases) if _legacy(c)]
+    replies = drv.run(reqs + [dict(reqs[i], op='c02.verify') for i in legacy_idx])
+    for n, i in enumerate(legacy_idx):
+        a, b = replies[i], replies[len(reqs) + n]
+        if 'nocb' not in a or 'nocb' not in b:
+            continue
+        for k in ('nocb', 'cb', 'calls', 'specOk', 'bad', 'mismatches', 'hyp'):
+            if a.get(k) != b.get(k):
+                ctx.machinery_error(f'verifyFs and verifySeq differ on classic path states in {k!r} '
+                                    '(contradicts C02_fs_conservative)', cases[i])
+                break
     results = common.pmap(_run_chunk, common.split(cases, common.NPROC * 4))
     k = 0
     for chunk in results:
@@ -269,57 +686,101 @@ def evaluate(ctx, drv, cases):
             k += 1
             case = {x: c[x] for x in ('L', 'sizes', 'disk', 'flips', 'single', 'pathkind', 'threads', 'paths',
                                       'cseed', 'dirname')}
-            damaged = any(d != 'ok' for d in c['disk']) or bool(c['flips'])
-            ctx.case(key=(c['L'], tuple(c['sizes']), tuple(map(str, c['disk'])), tuple(map(tuple, c['flips'])),
-                          c['single'], c['pathkind']),
+            if 'nocb' not in r:
+                raise RuntimeError(f'driver failure on {case}: {r}')
+            states = sorted({(st.get('how') or st['k']) if isinstance(st, dict) else 'classic' for st in c['disk']
+                             if st != 'ok'})
+            ctx.case(key=_key(c),
                      nontrivial=len(c['sizes']) >= 2, kind=c['kind'] + ('/single' if c['single'] else '') +
                      ('' if c['pathkind'] == 'normal' else '/' + c['pathkind']))
+            for s in states:
+                if s != 'classic':
+                    ctx.dist['state:' + s] += 1
             if 'harness_exc' in obs:
                 raise RuntimeError(f'harness failure on {case}: {obs["harness_exc"]}')
             ctx.sample({'case': case, 'model_nocb': r['nocb'], 'model_cb': r['cb']}, limit=4)
             pathmismatch = c['pathkind'] != 'normal'
+            what_is_wrong = _describe(c) if not pathmismatch else f'path kind {c["pathkind"]}'
             # ---- 1. implementation against the specification
             spec_ok = r['specOk'] and not pathmismatch
             nocb, cb, calls = obs['nocb'], obs['cb'], obs['calls']
+            owed = {e[0]: (e[1], e[2]) for e in r['owed']}                # file -> (kind, admissible errnos)
+            fault_files = {f for f, (kd, _) in owed.items()
+                           if kd == 'read' and isinstance(c['disk'][f], dict) and c['disk'][f]['k'] == 'readerr'}
             problems = []
+
+            def sound(e, where):
+                """a reported / raised file error must be the one owed for that file"""
+                if e['kind'] not in ('read', 'size'):
+                    return
+                o = owed.get(e['file'])
+                if o is None:
+                    problems.append(f'{where}: {e} names a file that is as recorded (or no listed file)')
+                elif o[0] != e['kind']:
+                    problems.append(f'{where}: {e} but file {e["file"]} owes a {o[0]} error')
+                elif e['kind'] == 'read' and e.get('errno') not in o[1]:
+                    problems.append(f'{where}: {e} but the OSError of file {e["file"]} has errno in {sorted(set(o[1]))}')
+
             if spec_ok:
                 if nocb != {'ok': True} or cb != {'ok': True}:
-                    problems.append('intact content did not verify')
+                    problems.append(f'content as recorded did not verify: without callback {nocb}, with callback {cb}')
+                if any(cl['exc'] for cl in calls):
+                    problems.append(f'content as recorded: the callback was handed {[cl["exc"] for cl in calls if cl["exc"]][:3]}')
             else:
                 if 'ok' in nocb:
-                    problems.append(f'damaged content: verify() without callback returned {nocb["ok"]} instead of raising')
+                    problems.append(f'content differs ({what_is_wrong}): verify() without callback returned {nocb["ok"]} instead of raising')
                 elif nocb['error']['kind'] not in ('read', 'size', 'content', 'isDir', 'notDir'):
-                    problems.append(f'verify() raised an undocumented error: {nocb["error"]}')
-                if cb != {'ok': False}:
-                    problems.append(f'damaged content: verify() with callback gave {cb}')
-                if not any(cl['exc'] for cl in calls):
-                    problems.append('verify() with callback returned False without reporting any error')
-            if not pathmismatch and 'ok' in cb:
-                rep = sorted((cl['exc']['file'], cl['exc']['kind']) for cl in calls
-                             if cl['exc'] and cl['exc']['kind'] in ('read', 'size'))
-                bad = sorted((e[0], e[1]) for e in r['bad'])
-                if rep != bad:
-                    problems.append(f'bad files reported {rep} expected {bad}')
+                    problems.append(f'content differs ({what_is_wrong}): verify() raised an undocumented error: {nocb["error"]}')
+                elif not pathmismatch:
+                    sound(nocb['error'], 'raised without callback')
+                    if nocb['error']['kind'] == 'content' and nocb['error']['piece'] not in r['mismatches']:
+                        problems.append(f'raised without callback: {nocb["error"]} but the data pieces that differ are {r["mismatches"]}')
+                if 'error' in cb and cb['error']['kind'] == 'read' and cb['error']['file'] in fault_files:
+                    sound(cb['error'], 'raised with callback')       # a read() failed in the reader thread: documented ReadError
+                elif cb != {'ok': False}:
+                    problems.append(f'content differs ({what_is_wrong}): verify() with callback gave {cb}')
+                elif not any(cl['exc'] for cl in calls):
+                    problems.append(f'content differs ({what_is_wrong}): verify() with callback returned False without reporting any error')
+            if not pathmismatch:
+                frep = [cl['exc'] for cl in calls if cl['exc'] and cl['exc']['kind'] in ('read', 'size')]
+                for e in frep:
+                    sound(e, 'handed to the callback')
+                rep = sorted((e['file'], e['kind']) for e in frep)
+                dup = sorted(set(x for x in rep if rep.count(x) > 1))
+                if dup:
+                    problems.append(f'bad files reported more than once: {dup} (reports {rep})')
                 cerr = {cl['piece']: cl['exc'] for cl in calls if cl['exc'] and cl['exc']['kind'] == 'content'}
-                # outside the theorem's hypothesis a bad zero-length entry may blank a neighbouring piece
-                required = [p for p in r['mismatches'] if r['hyp'] or not r['mayBlank'][p]]
-                if not (set(required) <= set(cerr) <= set(r['mismatches'])):
-                    problems.append(f'content errors for pieces {sorted(cerr)} expected {sorted(r["mismatches"])}')
+                if not set(cerr) <= set(r['mismatches']):
+                    problems.append(f'content errors for pieces {sorted(cerr)} but the data pieces that differ are {sorted(r["mismatches"])}')
                 for p, e in cerr.items():
                     if e['piece'] != p or not set(r['overlapping'][p] if p < len(r['overlapping']) else []) <= set(e['files']):
                         problems.append(f'content error of piece {p} names {e} but files {r["overlapping"][p]} overlap it')
                 if any(not cl['same_torrent'] or cl['total'] != r['pieces'] for cl in calls):
                     problems.append('callback got a wrong torrent or total')
+                if 'ok' in cb:
+                    must = sorted((e[0], e[1]) for e in r['must'])
+                    missing = [x for x in must if x not in rep]
+                    if missing:
+                        problems.append(f'bad files {missing} were not reported (reports {rep})')
+                    # outside the theorem's hypothesis a bad zero-length entry may blank a neighbouring piece
+                    required = [p for p in r['mismatches'] if r['hyp'] or not r['mayBlank'][p]]
+                    if not set(required) <= set(cerr):
+                        problems.append(f'content errors for pieces {sorted(cerr)} expected {sorted(r["mismatches"])}')
+                if r['hyp'] and owed:
+                    f0 = min(owed)
+                    named = {e['file'] for e in frep} | ({cb['error'].get('file')} if 'error' in cb else set())
+                    if f0 not in named:
+                        problems.append(f'the first damaged file ({f0}) was neither reported nor raised (with callback: {cb}, reports {rep})')
             if problems:
                 observed = {'nocb': nocb, 'cb': cb, 'calls': calls[:20], 'problems': problems}
                 for m in (nocb, cb):
                     if 'error' in m and m['error'].get('kind') == 'internal':
                         observed['exc_type'] = m['error'].get('exc_type')
-                if len(problems) == 1 and problems[0].startswith('bad files reported') and \
-                        sorted(set(rep)) == bad:
+                if len(problems) == 1 and problems[0].startswith('bad files reported more than once'):
                     observed['deviation'] = 'duplicate-report-only'
                 fid = ctx.violation('verify(): ' + '; '.join(problems[:3]), case,
-                                    {'specOk': spec_ok, 'bad': r['bad'], 'mismatches': r['mismatches']},
+                                    {'specOk': spec_ok, 'owed': r['owed'], 'must_report': r['must'],
+                                     'mismatches': r['mismatches']},
                                     observed, MATCHERS)
                 if fid is None:
                     continue
@@ -328,19 +789,37 @@ def evaluate(ctx, drv, cases):
             if not r['hyp']:
                 ctx.dist['outside-hyp(bad empty entry)'] += 1
                 continue
+            etab = {}
+            for p, f, n in r['errnos']:
+                etab.setdefault((p, f), n)
+                etab.setdefault((None, f), n)
+            fault = r['fault']
+
+            def errno_of(piece, f):
+                if (piece, f) in etab:
+                    return etab[(piece, f)]
+                if fault is not None and fault[0] == f:
+                    return fault[1]
+                return etab.get((None, f))
             mcalls = [{'done': cl['done'], 'piece': cl['piece'],
                        'hash': None if cl['hash'] is None else common.sha1(_bytes_of(cl['hash'], now)),
-                       'exc': _norm_model_exc(cl['exc'])} for cl in r['calls']]
+                       'exc': _norm_model_exc(cl['exc'], errno_of, cl['piece'])} for cl in r['calls']]
             icalls = [{'done': cl['done'], 'piece': cl['piece'], 'hash': cl['hash'], 'exc': cl['exc']} for cl in calls]
             mn = dict(r['nocb'])
             if 'error' in mn:
-                mn['error'] = _norm_model_exc(mn['error'])
+                mn['error'] = _norm_model_exc(mn['error'], errno_of, None)
+            mc = dict(r['cb'])
+            if 'error' in mc:
+                mc['error'] = _norm_model_exc(mc['error'], lambda p, f: fault[1] if fault and fault[0] == f else errno_of(p, f), None)
             inocb = dict(nocb)
             if 'error' in inocb and inocb['error'].get('kind') == 'internal':
                 inocb = {'error': {'kind': 'internal'}}
             icb = cb if not ('error' in cb and cb['error'].get('kind') == 'internal') else {'error': {'kind': 'internal'}}
+            # without a callback the reader may run into the unreadable byte before the collector's
+            # exception stops it: then Collector._finalize raises that ReadError instead
+            alt = [{'error': {'kind': 'read', 'file': fault[0], 'errno': fault[1]}}] if fault else []
             if c['threads'] == 1:
-                same = (mn == inocb and r['cb'] == icb and (mcalls == icalls or 'error' in icb))
+                same = ((mn == inocb or inocb in alt) and mc == icb and mcalls == icalls)
             else:
                 def key(cl):
                     import json
@@ -348,12 +827,17 @@ def evaluate(ctx, drv, cases):
                 a = sorted([{**cl, 'done': 0} for cl in mcalls], key=key)
                 b = sorted([{**cl, 'done': 0} for cl in icalls], key=key)
                 possible = [cl['exc'] for cl in mcalls if cl['exc']]
-                same = (r['cb'] == icb and (a == b or 'error' in icb) and
-                        (mn == inocb or ('error' in inocb and inocb['error'] in possible)))
+                same = (mc == icb and a == b and
+                        (mn == inocb or inocb in alt or ('error' in inocb and inocb['error'] in possible)))
             if not same:
-                ctx.corr_break('c02.verify', case,
-                               {'nocb': mn, 'cb': r['cb'], 'calls': [{**cl, 'hash': cl['hash'] and cl['hash'].hex()} for cl in mcalls][:12]},
+                ctx.corr_break('c02.verifyfs', case,
+                               {'nocb': mn, 'cb': mc, 'calls': [{**cl, 'hash': cl['hash'] and cl['hash'].hex()} for cl in mcalls][:12]},
                                {'nocb': inocb, 'cb': icb, 'calls': [{**cl, 'hash': cl['hash'] and cl['hash'].hex()} for cl in icalls][:12]})
+
+
+def _order(ctx):
+    """report a failure on content that is exactly as recorded before failures on damaged content"""
+    ctx.violations.sort(key=lambda v: 0 if 'content as recorded' in v.get('what', '') else 1)
 
 
 def run(ctx, drv):
@@ -366,12 +850,21 @@ def run(ctx, drv):
         'the callback is passive (cancellation: C04); order of callback calls is compared exactly for one hasher thread '
         'and as a set for several (schedules: C03, counters: C12)',
         'the torrent passed validate() (C07)',
+        'path states that need another user or a faulty device (EACCES — the check runs as root —, EMFILE, EIO, an '
+        'unreadable byte) are produced by shadowing `open` and `os` inside torf._stream for the listed paths only; '
+        'ENOENT, ENOTDIR, ELOOP, ENAMETOOLONG, EISDIR, ENXIO, symbolic links and (for zero-length entries: a link to '
+        '/proc/self/mem) EIO at read() are real file system states; FIFOs are not used (open() would block)',
+        'the state of a path does not change during one verify() call (no race between exists(), getsize() and open())',
+        'without a callback, when both an earlier error and an unreadable byte exist, either may be raised '
+        '(the reader thread runs ahead of the collector)',
     ]
     evaluate(ctx, drv, gen_cases(ctx))
+    _order(ctx)
 
 
 def search(ctx, drv):
     evaluate(ctx, drv, gen_cases(ctx, scale=3.0))
+    _order(ctx)
 
 
 def replay(ctx, drv, rp):
